@@ -167,7 +167,7 @@ func runC06(seed uint64, n int, outDir string, replay string) {
 			if err != nil {
 				panic(err)
 			}
-			_, allocs := cwAccounts()
+			_, allocs := cwAllAllocs()
 			for _, rp := range []struct {
 				name string
 				db   ethdb.Database
